@@ -378,6 +378,16 @@ func (cs comparisons) compareNodes(from, to *value) diff.Result {
 		}
 	}
 
+	// Nor is an import declaration a modification of another one that has
+	// no import in common with it: when 'import "errors"' in front of
+	// 'import ( "os" )' is removed, it is the first declaration that is
+	// gone, not the second one with the comments in it.
+	if fp, ok := importPaths(from); ok {
+		if tp, ok := importPaths(to); ok && !intersects(fp, tp) {
+			return diff.Result{NumDiff: 2} // not equal or similar
+		}
+	}
+
 	c := nodeComparer{compare: cs}
 	c.Walk(from, to)
 	return c.Result
@@ -399,6 +409,49 @@ func genDeclTok(v *value) (token.Token, bool) {
 		}
 	}
 	return 0, false
+}
+
+var basicLitPtrType = reflect.TypeOf((*ast.BasicLit)(nil))
+
+// importPaths reports the paths imported by the declaration if v is a
+// snapshot of an import declaration.
+func importPaths(v *value) ([]string, bool) {
+	if tok, ok := genDeclTok(v); !ok || tok != token.IMPORT {
+		return nil, false
+	}
+
+	var paths []string
+	var collect func(*value)
+	collect = func(v *value) {
+		if v == nil || v.IsNil() {
+			return
+		}
+		if v.Type() == basicLitPtrType && v.Elem != nil {
+			for _, c := range v.Elem.Children {
+				if s, ok := c.Interface().(string); ok {
+					paths = append(paths, s)
+				}
+			}
+			return
+		}
+		collect(v.Elem)
+		for _, c := range v.Children {
+			collect(c)
+		}
+	}
+	collect(v)
+	return paths, true
+}
+
+func intersects(xs, ys []string) bool {
+	for _, x := range xs {
+		for _, y := range ys {
+			if x == y {
+				return true
+			}
+		}
+	}
+	return false
 }
 
 func (c *nodeComparer) Walk(from, to *value) {
